@@ -1,6 +1,6 @@
 ENTRY = {
     "level": "proof",
-    "families": [fam("C08", 60, 4000)],
+    "families": [fam("C08", 60, 600)],
     "gen_items": [],
     "rule": "family C08: one statement per case over a generated catalog (2 tables, 4..300 rows, up to 14 batches, NULL density 0/10/50/100 %), run through ExecutionContext::sql "
             "WITHOUT a memory limit and under 2-3 limits of the ladder {8x, 1.25x, 1/3, 1/12 of the input bytes, 200 bytes} (no spill / about one run / several runs / more than 8 "
